@@ -98,7 +98,9 @@ def nested_zom(text, ast):
 def run():
     ses = Session("C06")
     rep = ses.rep
-    recs, stats, _ = progs.load()
+    # thorough tier: the small enumerations of the quick tier, four times as many random derivations
+    # (the full thorough program set times three queries took over an hour)
+    recs, stats, _ = progs.load(small="quick", max_random=2000 if tier() == "quick" else 8000)
     have = {r["text"] for r in recs}
     # the rule family: expressions most of which must be rejected
     fam = {}
